@@ -157,7 +157,8 @@ def match_case(draw, ctx, big=False):
     if case["facade"]:
         # reference-changing operations before the matching: the facade must match against the reference as it is
         # *now* (get_reference()), not against the series the Weaver was constructed with.  Powers of two: exact.
-        case["facade_pre"] = [draw(st.sampled_from([1.0, 2.0, 0.5, 4.0])), draw(st.sampled_from([1.0, 1.0, 2.0, 0.25]))]
+        case["facade_pre"] = [draw(st.sampled_from([1.0, 2.0, 0.5, 4.0])), draw(st.sampled_from([1.0, 1.0, 2.0, 0.25])),
+                              draw(st.sampled_from([0.0, 0.0, 1.0, -2.5, 64.0])), draw(st.sampled_from([0.0, 0.0, 1.0, -8.0]))]
     yr = draw(ys(len(case["x_ref"])))
     case["y_ref"] = yr["y"]
     case["yrkind"] = yr["kind"]
@@ -246,8 +247,8 @@ def classes(case):
         cls.append("explicit+irrelevant-strategy")
     if case.get("decoy_points"):
         cls.append("indices+overridden-positions")
-    if case.get("facade") and case.get("facade_pre") not in (None, [1.0, 1.0]):
-        cls.append("facade-after-scaling")
+    if case.get("facade") and case.get("facade_pre") and list(case["facade_pre"]) not in ([1.0, 1.0], [1.0, 1.0, 0.0, 0.0]):
+        cls.append("facade-after-unit-conversion")
     return cls
 
 
